@@ -169,6 +169,7 @@ def check(ctx) -> None:
     r136(ctx)
     r137(ctx)
     r138(ctx)
+    r139(ctx)
 
 
 def r131(ctx, f, table) -> None:
@@ -625,3 +626,47 @@ def r138(ctx) -> None:
                 f'SearchKey.{nm} covers {sorted(fields)}',
                 f'{nm} ignores {sorted(fields - reads(g))}: X and NOT X '
                 f'compare equal')
+
+
+def r139(ctx) -> None:
+    """BODY / TEXT are existential over the MIME parts: the scan may stop
+    early only on a positive witness."""
+    R = ctx.rule('R13.9', 'the BODY/TEXT scan over the MIME parts stops '
+                 'early only on a match', 1)
+    blm = ctx.proj.cls('pymap/message.py', 'BaseLoadedMessage')
+    f = blm.own_method('contains')
+    if f is None:
+        raise AnchorError('BaseLoadedMessage.contains vanished')
+    loops = [l for l in walk_local(f.node) if isinstance(l, ast.For)
+             and any(call_name(c) == 'walk' for c in calls_in(l.iter))]
+    key = 'contains(): every part is looked at until one matches'
+    if not loops:
+        quant = [c for c in calls_in(f.node, 'any') if c.args and isinstance(
+            c.args[0], ast.GeneratorExp) and any(
+                call_name(x) == 'walk'
+                for g in c.args[0].generators for x in calls_in(g.iter))]
+        if quant:
+            R.ok(f, quant[0], key, 'any() over content.walk()')
+        else:
+            R.undecided(f, f.node, key, 'no loop / any() over '
+                        'content.walk() found')
+        return
+    for l in loops:
+        bad = []
+        for st in l.body:
+            for x in ast.walk(st):
+                if isinstance(x, ast.Return) and \
+                        const_value(x.value) != (True, True):
+                    bad.append(x)
+                if isinstance(x, ast.Break):
+                    bad.append(x)
+        if bad:
+            R.fail(f, bad[0], key,
+                   f'`{txt(bad[0])}` inside the loop over the MIME parts '
+                   f'ends the scan on a part that did NOT match: a string '
+                   f'that occurs only in a later part (the HTML half of a '
+                   f'multipart/alternative, a second text attachment, a '
+                   f'later part\'s header) is missed by BODY and TEXT, and '
+                   f'NOT BODY x returns a message that contains x')
+        else:
+            R.ok(f, l, key, 'returns inside the loop are `return True` only')
